@@ -60,11 +60,23 @@ impl Scenario for C14 {
     fn generate(rng: &mut Rng, _tier: Tier, avoid: bool) -> Self {
         let n_small = rng.urange(0, 8);
         let (mut state, mut cands) = gen_tick(rng, avoid, false, n_small);
+        // Large single-instance tick (1 in 50): the violator among >= 4096 honest rewrites of one
+        // instance - enforcement must not depend on the size or shape of the tick.
+        let huge = rng.chance(1, 50);
+        if huge {
+            cands.retain(|c| c.w == 0);
+            let count = *rng.pick(&[4096u16, 4200, 5000]);
+            let m = *rng.pick(&[1u8, 4, 16, 200]);
+            state.insts[0].filler = Some((1000, count, m));
+            for k in 1000..1000 + count {
+                cands.push(Cand { rule: 0, w: 0, k, shard: (k % u16::from(m)) as u8 });
+            }
+        }
         // the violator: non-conditional program
         let mut kn = knobs(rng, avoid);
         kn.absent_16 = 0;
         kn.max_steps = rng.urange(1, 4);
-        let wi = rng.usize_below(state.insts.len());
+        let wi = if huge { 0 } else { rng.usize_below(state.insts.len()) };
         let rule = rng.below(u64::from(N_RULES)) as u8;
         let mut prog = gen_prog(rng, &state, wi, rule, 0x4000_0000, &kn);
         prog.steps.retain(|s| !matches!(s, Step::IfEdge { .. }));
@@ -283,6 +295,20 @@ impl Scenario for C14 {
 
     fn shrink_candidates(&self) -> Vec<Self> {
         let mut out = Vec::new();
+        // large ticks: drop halves / quarters of the other candidates first
+        if self.cands.len() > 32 {
+            let others: Vec<usize> = (0..self.cands.len()).filter(|i| *i != self.violator).collect();
+            for parts in [2usize, 4, 8] {
+                let chunk = others.len().div_ceil(parts);
+                for c in others.chunks(chunk.max(1)) {
+                    let drop: std::collections::BTreeSet<usize> = c.iter().copied().collect();
+                    let mut s = self.clone();
+                    s.cands = self.cands.iter().enumerate().filter(|(i, _)| !drop.contains(i)).map(|(_, c)| c.clone()).collect();
+                    s.violator = self.violator - drop.iter().filter(|i| **i < self.violator).count();
+                    out.push(s);
+                }
+            }
+        }
         for ci in 0..self.cands.len() {
             if ci == self.violator {
                 continue;
